@@ -66,6 +66,9 @@ func kfBar(args []KeyBuilderStage) (KeyBuilderStage, error) {
 	if !maxLenOk {
 		return stageArgError(ErrNum, 2)
 	}
+	if maxLen < 0 || maxLen > 1_000_000 { // negative, or wider than any terminal (would only exhaust memory)
+		return stageArgError(ErrValue, 2)
+	}
 
 	scaler := termscaler.ScalerLinear
 	if len(args) >= 4 {
